@@ -141,7 +141,7 @@ def _mentions_old_content(t):
 
 def rule_NON(FA):
     out = []
-    props = ['C08']
+    props = ['C08', 'C19']
     base = 'bitvector::BitVectorMut'
     n = 0
     for f in FA.lib_fns(include_closures=False):
@@ -547,6 +547,13 @@ def rule_LVL(FA):
                                 if isinstance(x, tuple) and x and x[0] == 'agg' and 'BitsPerFragment' in x[1] and x[2] and x[2][0][0] == 'const':
                                     k_found = x[2][0][1]
                             good = k_found == frag
+                    # the frequency table handed to the coder must be the unmodified result of the counting pass
+                    freq_mut = ''
+                    for bj, t2 in F.calls():
+                        if t2['f']['fn']['name'].startswith('from_frequencies') and len(t2['args']) >= 2 and 'p' in t2['args'][1]:
+                            freq_mut = _other_uses(F, t2['args'][1]['p']['l'], bj)
+                    if freq_mut:
+                        good = False
                     # the lengths map must not be touched between the coder and craft_wm_codes
                     lengths_local = t['args'][0]['p']['l'] if 'p' in t['args'][0] else None
                     mutated = _other_uses(F, lengths_local, bi)
@@ -554,7 +561,8 @@ def rule_LVL(FA):
                         out.append(Inst('R-LVL', key, 'ok', t['line'], 'code lengths come unmodified from the minimum-redundancy coder with %d-bit fragments' % frag, props,
                                         sample={'lengths': show(a0)[:160]}))
                     else:
-                        why = 'lengths passed to craft_wm_codes are `%s`' % show(a0)[:120] if not good else 'the lengths map is modified before craft_wm_codes (%s)' % mutated
+                        why = ('the frequency table is modified before it reaches the coder (%s)' % freq_mut) if freq_mut else \
+                            ('lengths passed to craft_wm_codes are `%s`' % show(a0)[:120] if not good else 'the lengths map is modified before craft_wm_codes (%s)' % mutated)
                         out.append(Inst('R-LVL', key, 'violation', t['line'],
                                         'code lengths are not the unmodified output of Coding::from_frequencies*(BitsPerFragment(%d)).code_lengths(): %s' % (frag, why), props))
         if n_push == 0:
